@@ -148,6 +148,29 @@ CLAIMS = [
      "note": "2 ids, <= 5 backups per history, one fault per trial, quiescent single-threaded backups; same-second full backups are an assumption; "
              "three defects found by this check were repaired by fix: commits",
      "ref": "DESIGN.md section D / notes/C12.md"},
+    {"id": "C10",
+     "technique": "TLC model check of the tenant layer as two side-by-side copies (Tenancy.tla: all tenants / observer only; NonInterference and 6 more invariants) + TLC-generated multi-tenant RPC scenarios run twice on fresh real servers -> TLC trace validation of every answer and census (TenantView.tla)",
+     "text": "Tenancy.tla models id mapping, reserved-key overwrite / strip, tenant + namespace checks, filter deletes as AND(tenant, namespace, filter), "
+             "line-geometry search with the query cache scope, quota and /usage; TLC checks NonInterference (the observer's answers are the same with and "
+             "without the other tenants), ReservedNeverVisible / Settable, ReturnedOwnOnly, NamespaceRespected, RefusedWithoutKey, QuotaExact for every "
+             "sequence of 4 requests of 2 tenants (3 x 3 in thorough); 8 deviation constants are kept as expected counterexamples. The same module "
+             "generates scenarios (16-30 RPCs, 2-3 tenants, colliding ids, spoofed reserved keys in metadata and in 19 filter shapes, bad keys); each "
+             "runs twice through srvdrive on fresh kyrodb_server processes with a census of every tenant after every request; TenantView.tla (TLC) "
+             "judges the single-tenant view and the paired runs.",
+     "note": "search completeness / paired comparison only for un-drained recent writes; only tenant 1 is paired; timing side channels and /metrics are "
+             "outside the property; the search post-filter count leak is a listed known finding (C10-search-postfilter-leaks-count)",
+     "ref": "DESIGN.md section D / notes/C10.md"},
+    {"id": "C14",
+     "technique": "TLC model check of the quota protocol at handler-step granularity (TenancyQuota.tla) + TLC-generated sequential histories with restarts and TLC-enumerated race pairs run as concurrent RPC groups against the real server -> TLC trace validation of census / admission probes / usage (QuotaTrace.tla)",
+     "text": "TenancyQuota.tla models one tenant's live set, counter and quota mutex with the insert / bulk / delete / batch-delete handlers as steps "
+             "(Lock, Exists, Reserve, EngineInsert, Release, GetMeta, EngineDelete, Decrement, Recount); TLC checks QuotaExact at quiescence, "
+             "LiveWithinLimit, CountCoversLive, NeverRefusedBelowLimit for all interleavings of two handlers; the pre-repair protocol (deletes outside "
+             "the mutex) and a missing start-up recount are expected counterexamples. Generators: sequential histories near the limit with SIGTERM / "
+             "SIGKILL restarts, and 1 736 race cases (start state x two RPCs sharing an id), run as par groups with seeded jitter on the real "
+             "kyrodb_server; after each request / group: BulkQuery census, /usage, limit+1 probe inserts; QuotaTrace.tla (TLC) judges.",
+     "note": "no schedule control over the server process: race coverage is by repetition with jitter (a violation needs a quiescent measurement, so a "
+             "missed interleaving can only hide a defect); the delete-outside-mutex defect found by this check was repaired by a fix: commit",
+     "ref": "DESIGN.md section D / notes/C14.md"},
 ]
 
 _PENDING = "not yet covered by the specification suite in this revision (see DESIGN.md section 11 for the construction order)"
